@@ -5,5 +5,6 @@ pub mod m {
 }
 pub fn run() -> Vec<u32> {
     let app = ::entrait::Impl::new(());
-    vec![T::f1(&app), (T::f2(&app))()]
+    let r = vec![T::f1(&app), (T::f2(&app))()];
+    r
 }
